@@ -149,9 +149,9 @@ class Batch:
             with self.lock:
                 for line in p.stdout.splitlines():
                     if line.startswith("V "):
-                        d = parse_kv(line); d["fatal"] = False; self.viol.append(d)
+                        d = parse_kv(line); d["fatal"] = False; d["pstart"], d["pstride"] = cur, stride; self.viol.append(d)
                     elif line.startswith("FATAL "):
-                        d = parse_kv(line); d["fatal"] = True; d.setdefault("msg", d.get("detail", "")); self.viol.append(d)
+                        d = parse_kv(line); d["fatal"] = True; d.setdefault("msg", d.get("detail", "")); d["pstart"], d["pstride"] = cur, stride; self.viol.append(d)
                         done_to = int(d.get("i", cur))
                     elif line.startswith("S "):
                         self.summaries.append(json.loads(line[2:]))
@@ -294,6 +294,8 @@ def confirm_and_report(prop, bins, seed, batches, known):
             cmd = [binpath, "shrink", "--prop", prop, "--seed", str(seed), "--plan-file", planfile, "--out", out]
         else:
             cmd = [binpath, "shrink", "--prop", prop, "--seed", str(seed), "--index", str(v.get("i", 0)), "--out", out]
+            if PROPS[prop]["engine"] == "simA" and "pstart" in v:      # the histories the same worker process had executed before (used only if the plan alone does not reproduce)
+                cmd += ["--chain-start", str(v["pstart"]), "--chain-stride", str(v["pstride"])]
         p = subprocess.run(cmd, stdout=subprocess.PIPE, stderr=subprocess.PIPE, text=True, env=env, errors="replace")
         if p.returncode != 0:
             log("INFRASTRUCTURE: violation class=%s site=%s at index %s (%s) did not reproduce when re-executed: %s" % (cls, v.get("site"), v.get("i"), variant, p.stdout.strip()[-300:]))
